@@ -137,7 +137,7 @@ impl RefModel for CondModel {
     }
 }
 
-const UNSELECTED_KINDS: usize = 10;
+const UNSELECTED_KINDS: usize = 18;
 
 fn unselected_payload(kind: usize, id: usize) -> String {
     match kind % UNSELECTED_KINDS {
@@ -150,7 +150,16 @@ fn unselected_payload(kind: usize, id: usize) -> String {
         6 => ".equ k_cond = 99".to_string(),
         7 => ".device ATtiny11".to_string(),
         8 => ".define UNDEF_FLAG".to_string(),
-        _ => format!(".message \"unselected {}\"", id),
+        9 => format!(".message \"unselected {}\"", id),
+        // prose and fragments: openers without closers, closers without openers, quotes, a backslash
+        10 => "generated from data/*.csv by the build script".to_string(),
+        11 => "end of the table */ and more prose".to_string(),
+        12 => ".db \"an unterminated string".to_string(),
+        13 => "it's prose with an apostrophe".to_string(),
+        14 => "a path like C:\\TEMP\\".to_string(),
+        15 => ".endm".to_string(),
+        16 => ".exit".to_string(),
+        _ => "( ( ( unbalanced".to_string(),
     }
 }
 
